@@ -1,0 +1,55 @@
+//! Verification hooks (compiled only with `--cfg scylla_verif`).
+//!
+//! Thin pass-throughs that let the external verification harness in `/verif` drive
+//! crate-private logic with synthetic inputs. Nothing here changes the driver's behaviour;
+//! with the cfg off this module does not exist.
+
+/// C11: shard-aware port selection over an arbitrary port range.
+pub mod sharding {
+    use crate::routing::{Shard, ShardAwarePortRange, Sharder};
+
+    pub fn lowest_port_for_shard_in_range(
+        sharder: &Sharder,
+        shard: u16,
+        range: &ShardAwarePortRange,
+    ) -> Option<u16> {
+        sharder.verif_lowest_port_for_shard_in_range(shard, range)
+    }
+
+    pub fn draw_source_port_for_shard_from_range(
+        sharder: &Sharder,
+        shard: Shard,
+        range: &ShardAwarePortRange,
+    ) -> Option<u16> {
+        sharder.draw_source_port_for_shard_from_range(shard, range)
+    }
+
+    pub fn iter_source_ports_for_shard_from_range(
+        sharder: &Sharder,
+        shard: Shard,
+        range: &ShardAwarePortRange,
+    ) -> Vec<u16> {
+        sharder
+            .iter_source_ports_for_shard_from_range(shard, range)
+            .collect()
+    }
+
+    /// `ShardInfo::try_from(&options)` projected to plain numbers / an error label.
+    pub fn shard_info_from_options(
+        options: &std::collections::HashMap<String, Vec<String>>,
+    ) -> Result<(u16, u16, u8), String> {
+        use crate::routing::{ShardInfo, ShardingError};
+        match ShardInfo::try_from(options) {
+            Ok(si) => Ok((si.shard, si.nr_shards.get(), si.msb_ignore)),
+            Err(e) => Err(match e {
+                ShardingError::NoShardInfo => "noShardInfo",
+                ShardingError::MissingSomeShardInfoParameters => "missingSome",
+                ShardingError::MissingShardInfoParameterValues => "missingValues",
+                ShardingError::ZeroShards => "zeroShards",
+                ShardingError::ShardIdOutOfRange { .. } => "shardOutOfRange",
+                ShardingError::ParseIntError(_) => "parse",
+            }
+            .to_owned()),
+        }
+    }
+}
